@@ -298,13 +298,21 @@ def FS.set (fs : FS) (f : File) (c : Option Bytes) : FS :=
   | .tmp => { fs with tmp := c }
 
 inductive FOp
-  | creat (f : File)                  -- open(O_WRONLY|O_CREATE|O_TRUNC)
+  | creat (f : File)                  -- open(O_WRONLY|O_CREATE|O_TRUNC): an existing file — e.g. the
+                                      -- temp file a killed process left behind — is emptied and reused
+  | creatExcl (f : File)              -- open(O_WRONLY|O_CREATE|O_EXCL): refused if the file exists
   | write (f : File) (data : Bytes)   -- write to the descriptor just opened
   | rename (src dst : File)
 deriving DecidableEq, Repr
 
+/-- the operation fails by itself (no injected fault): `O_EXCL` on a file that exists -/
+def FOp.refused : FOp → FS → Bool
+  | .creatExcl f, fs => (fs.get f).isSome
+  | _, _ => false
+
 def FOp.apply : FOp → FS → FS
   | .creat f, fs => fs.set f (some [])
+  | .creatExcl f, fs => if (fs.get f).isSome then fs else fs.set f (some [])
   | .write f d, fs =>
     match fs.get f with
     | some c => fs.set f (some (c ++ d))
@@ -323,6 +331,8 @@ def FOp.during : FOp → FS → List FS
 inductive Style
   | tmpRename   -- the tree as it is now (caddy.go:379-386)
   | inPlace     -- `os.WriteFile(ConfigAutosavePath, …)`, before commit 5246ab3
+  | tmpExcl     -- NOT in the tree: the fixed-name temp file opened with O_EXCL (a plausible
+                -- "improvement"; see Witness.autosave_excl_fails)
 deriving DecidableEq, Repr
 
 def codeStyle : Style := .tmpRename
@@ -331,6 +341,7 @@ def codeStyle : Style := .tmpRename
 def autosaveOps : Style → Bytes → List FOp
   | .tmpRename, cfg => [.creat .tmp, .write .tmp cfg, .rename .tmp .path]
   | .inPlace, cfg => [.creat .path, .write .path cfg]
+  | .tmpExcl, cfg => [.creatExcl .tmp, .write .tmp cfg, .rename .tmp .path]
 
 inductive FMode
   | killBefore | killAfter
@@ -370,6 +381,7 @@ def runOps (ft : Option FFault) : List FOp → Nat → FS → OpsOut
   | op :: rest, i, fs =>
     match ffires ft i with
     | none =>
+      if op.refused fs then ⟨fs, .failed, [op], [fs]⟩ else
       ⟨(runOps ft rest (i + 1) (op.apply fs)).fs, (runOps ft rest (i + 1) (op.apply fs)).status,
        op :: (runOps ft rest (i + 1) (op.apply fs)).log,
        fs :: op.during fs ++ (runOps ft rest (i + 1) (op.apply fs)).seen⟩
@@ -437,6 +449,9 @@ def AEvent.seen (sty : Style) : AEvent → AState → List FS
 def runLoads (sty : Style) : List AEvent → AState → AState
   | [], a => a
   | e :: es, a => runLoads sty es (e.step sty a)
+
+/-- `caddy run --resume` reads the autosave file -/
+def resumeConfig (a : AState) : Option Bytes := a.fs.path
 
 /-- every file-system state that exists at some instant of the history -/
 def seenHist (sty : Style) : List AEvent → AState → List FS
